@@ -176,7 +176,25 @@ def site_of(exc):
     return 'outside-pedal'
 
 
-def check_program(ctx, src, origin, must_complete, tag=None):
+FORMATTERS = ['default', 'default', 'html', 'text']
+
+
+def use_formatter(ctx, src, which=None):
+    """the report's formatter is the environment's choice (web environments use the HTML one): issue messages are rendered through it
+    while the analysis runs"""
+    from pedal.core.report import MAIN_REPORT
+    from pedal.core import formatting
+    import zlib
+    which = which or FORMATTERS[zlib.crc32(src.encode('utf-8', 'replace')) % len(FORMATTERS)]
+    if which == 'html':
+        MAIN_REPORT.format = formatting.HtmlFormatter()
+    elif which == 'text':
+        MAIN_REPORT.format = formatting.TextFormatter()
+    ctx.seen('report_formatters', which)
+    return which
+
+
+def check_program(ctx, src, origin, must_complete, tag=None, formatter=None):
     from pedal.core.commands import clear_report, contextualize_report
     from pedal.core.report import MAIN_REPORT
     from pedal.tifa import tifa_analysis
@@ -191,6 +209,7 @@ def check_program(ctx, src, origin, must_complete, tag=None):
     nlines = src.count('\n') + 1
     clear_report()
     contextualize_report(src)
+    case['formatter'] = use_formatter(ctx, src, formatter)
     report = MAIN_REPORT
     try:
         t1 = tifa_analysis()
@@ -207,7 +226,8 @@ def check_program(ctx, src, origin, must_complete, tag=None):
     if not getattr(t1, 'success', False):
         if must_complete:
             err = getattr(t1, 'error', None)
-            ctx.violation('C18|analysis-did-not-complete|%s|%s|%s' % (origin, type(err).__name__, site_of(err) if isinstance(err, BaseException) else '?'),
+            ctx.violation('C18|analysis-did-not-complete|%s|%s|%s%s' % (origin, type(err).__name__, site_of(err) if isinstance(err, BaseException) else '?',
+                                                                         '' if case['formatter'] == 'default' else '|formatter=' + case['formatter']),
                           case, '%r' % (err,))
         else:
             ctx.count('internal_failures_on_non_introductory_code_(not judged)')
@@ -237,6 +257,7 @@ def check_program(ctx, src, origin, must_complete, tag=None):
     # ---- determinism on a fresh report -----------------------------------------------------------------
     clear_report()
     contextualize_report(src)
+    use_formatter(ctx, src, case['formatter'])
     try:
         t3 = tifa_analysis()
     except BaseException as e:
@@ -345,6 +366,15 @@ def sweep_programs():
                 continue
             args = METHOD_ARGS.get(tname, {}).get(m, '()')
             out.append(('method:%s.%s' % (tname, m), 'value = %s\nresult = value.%s%s\nprint(result, value)\n' % (recv, m, args)))
+    # the same calls written as statements of their own, on the literal and on a variable (the result is dropped)
+    for tname, recv in RECEIVERS.items():
+        typ = getattr(builtins, tname)
+        for m in sorted(dir(typ)):
+            if m.startswith('_'):
+                continue
+            args = METHOD_ARGS.get(tname, {}).get(m, '()')
+            lit = recv if not recv[0].isdigit() and recv[0] != '-' else '(%s)' % recv
+            out.append(('method-as-a-statement:%s.%s' % (tname, m), '%s.%s%s\nvalue = %s\nvalue.%s%s\nprint(value)\n' % (lit, m, args, recv, m, args)))
     for tname in ALT_RECEIVERS:
         typ = getattr(builtins, tname)
         for m in sorted(dir(typ)):
@@ -396,6 +426,9 @@ def run(ctx):
             ctx.count('sweep_cells')
             ctx.seen('sweep_kinds', tag.split(':')[0])
             check_program(ctx, src, 'sweep:' + tag.split(':')[0], True, tag)
+            if tag.startswith(('method-as-a-statement', 'mistake')):
+                for which in ('html', 'text', 'default'):
+                    check_program(ctx, src, 'sweep:' + tag.split(':')[0], True, tag, formatter=which)
             if previous is not None and (tag.startswith(('mistake', 'intro', 'annotated')) or i % 5 == 0):
                 check_interleaved(ctx, src, previous)
             if i % 7 == 0:
@@ -440,4 +473,4 @@ def replay(ctx, case):
     if src is None and case.get('path'):
         from gen import corpus
         src = corpus.read(case['path'])
-    check_program(ctx, src, case.get('origin', 'replay'), case.get('origin', '').startswith(('sweep', 'generated')), case.get('tag'))
+    check_program(ctx, src, case.get('origin', 'replay'), case.get('origin', '').startswith(('sweep', 'generated')), case.get('tag'), formatter=case.get('formatter'))
